@@ -1005,6 +1005,12 @@ fn compare_misc(pre: &Obs, post: &Obs, eff: &Effect, a: &Action, names: &Names, 
         }
         for d in all {
             let owed = eq.get(&d).copied().unwrap_or(0);
+            let mut newly = 0u128;
+            for x in [&eff.fee_new.0, &eff.fee_new.1].into_iter().flatten() {
+                if x.0 == d {
+                    newly += x.1;
+                }
+            }
             let dp = post.pool_of(&d).saturating_sub(pre.pool_of(&d));
             let mut pend = 0u128;
             for x in [&l_after, &b_after].into_iter().flatten() {
@@ -1012,11 +1018,16 @@ fn compare_misc(pre: &Obs, post: &Obs, eff: &Effect, a: &Action, names: &Names, 
                     pend += x.1;
                 }
             }
+            let m = format!(
+                "{kind}: {d}: this trade charges {newly} and the bucket carried {} from an earlier sale, but pending afterwards {pend} + paid to pool now {dp}",
+                owed - newly
+            );
+            // C10: nothing lost, nothing duplicated (carried fee included)
             if pend + dp != owed || post.pool_of(&d) < pre.pool_of(&d) {
-                let m = format!(
-                    "{kind}: {d}: fees owed by this trade (new + carried) {owed}, but pending afterwards {pend} + paid to pool now {dp}"
-                );
                 f.push(Finding::new("C10.fee_conservation", "buy", m.clone()));
+            }
+            // C06: the fee of THIS trade is accounted for in full and nothing beyond what is owed is taken
+            if pend + dp < newly || pend + dp > owed {
                 f.push(Finding::new("C06.fee_recorded", "buy", m));
             }
         }
